@@ -266,8 +266,9 @@ def run(chk):
         chk.cov['traces_validated_against_impl'] += tot
         os.remove(res.dump_path)
     # histories that start from a file already holding two geometries (prefix), three more calls: failing calls next to other geometries' content
-    res = tlc.run(TLA, os.path.join(SPEC, 'vmap', 'MC_Vmap_two.cfg'), dump=True, timeout=3000, heap='12g')
-    chk.tlc('MC_Vmap_two.cfg', res, 'histories with the prefix add_geometry(A, tri2d); add_geometry(B, quad2d) and three more calls')
+    twocfg = 'MC_Vmap_two.cfg' if quick else 'MC_Vmap_two_thorough.cfg'
+    res = tlc.run(TLA, os.path.join(SPEC, 'vmap', twocfg), dump=True, timeout=3000, heap='12g')
+    chk.tlc(twocfg, res, 'histories with the prefix add_geometry(A, tri2d); add_geometry(B, quad2d) and three more calls; a seeded sample is replayed')
     if res.violated:
         chk.machinery.append('model property %s violated: %s' % (res.violated, [s_.get('hist') for s_ in res.trace[-1:]]))
     if res.dump_path and os.path.exists(res.dump_path):
